@@ -5,6 +5,7 @@ package ssh
 import (
 	"bufio"
 	"bytes"
+	"crypto"
 	"errors"
 	"io"
 	"strings"
@@ -114,3 +115,10 @@ func VerifPacketErrClass(err error) string {
 }
 
 func isCBCError(err error) bool { _, ok := err.(cbcError); return ok }
+
+// VerifGenerateKeyMaterial is generateKeyMaterial (RFC 4253 section 7.2) on explicit K (already encoded), H, session id.
+func VerifGenerateKeyMaterial(n int, tag, k, h, sessionID []byte, hash crypto.Hash) []byte {
+	out := make([]byte, n)
+	generateKeyMaterial(out, tag, &kexResult{K: k, H: h, SessionID: sessionID, Hash: hash})
+	return out
+}
